@@ -129,7 +129,7 @@ def main():
             "kind_free_text": "Rust binary: proptest TestRunner campaigns with fixed seeds + exhaustive small-scope enumerators, independent reference model (forward-mode dual numbers), replay files, evidence writer",
         }],
         "checks": checks,
-        "notes": "All checks: ./bin/check <ID> <quick|thorough>; VERIF_SEED selects the campaign seeds. Exit 0 held, 1 violation (VIOLATION line + replay file), 2 inconclusive. See DESIGN.md.",
+        "notes": "All checks: ./bin/check <ID> <quick|thorough>; VERIF_SEED selects the campaign seeds. Exit 0 held, 1 violation (VIOLATION line + replay file), 2 inconclusive (harness build failure, a case running longer than 600 s, or the run exceeding its wall-clock budget: 30 min quick, 6 h thorough, VERIF_TIME_LIMIT_S). Besides the scopes named per check, every program-based check also runs its generator with dimension sizes up to 130 and with operand / seed magnitudes spread over many binary orders of magnitude, and every single-operation check has wide-magnitude and more-than-65536-element campaigns (DESIGN.md section 10, round 4); the measured list of campaigns is in each evidence file. See DESIGN.md.",
         "not_applicable": na,
     }
     json.dump(m, open(os.path.join(ROOT, "MANIFEST.json"), "w"), indent=1)
